@@ -1,51 +1,75 @@
 ---------------------------- MODULE ImportRun ----------------------------
 (* C14, dynamic part: one process that creates importing programs / environments one after the other.
    A library body is evaluated once, before the first importer can use it and after the bodies of the
-   libraries it imports; all importers see the one instance (observable through a library's exported
-   `tick' procedure, which counts its calls in a private variable).
+   libraries it imports; all importers see the one instance: its private state (a `tick' procedure counts
+   its calls) and its variables.  A variable binding is a location: the library assigns its variables when
+   its `bump' procedure is called (by a program, an environment or - `relay' - another library), and every
+   identifier that denotes the binding, in whatever importer and under whatever name, reads the current
+   value - never a copy made when the importer was created.
 
-   What a program observes when it refers to identifier n (the harness probes `n' and `(n)'):
-     not visible            ref = <<>> (unbound)      call = <<"err">>
-     variable  <<L,i>>      ref = <<L,i>>             call = <<"err">>
-     procedure / macro      ref = <<"called">>        call = <<L,i>>   (computed by L's private helper)
-     tick                   ref = <<"called">>        call = <<L,i,c>> c = number of calls of L's tick so far *)
+   What a program observes when it refers to identifier n (the harness probes `(n)' and, if that fails, `n'):
+     not visible            ref = <<>> (unbound)          call = <<"err">>
+     variable  b = <<L,i>>  ref = Val(b, vers[L])         call = <<"err">>
+     procedure / macro      ref = <<"called">>            call = <<L,i>>   (computed by L's private helper)
+     tick                   ref = <<"called">>            call = <<L,i,c>>  c = calls of L's tick so far
+     bump                   ref = <<"called">>            call = <<L,i,v>>  v = vers[L] after the call
+     rd (reads variable t)  ref = <<"called">>            call = Val(t, vers[library of t])
+     relay (calls bump of T)ref = <<"called">>            call = <<L,i,v>>  v = vers[T] after the call *)
 EXTENDS Import
 VARIABLES inst,     \* inst[l]  : how often the body of library l has been evaluated
-          ticks,    \* ticks[l] : calls of l's tick procedure so far (the state of the single instance)
+          ticks,    \* ticks[l] : calls of l's tick procedure so far (private state of the single instance)
+          vers,     \* vers[l]  : how often l has assigned its variables; location b holds Val(b, vers[b[1]])
           phase,    \* "idle" | "loading" | "ready"
           cur,      \* import sets of the current program
           tab       \* = ExpTab, the export maps of all libraries (constant; kept in a variable so that TLC computes it once)
-rvars == <<inst, ticks, phase, cur>>
+rvars == <<inst, ticks, vers, phase, cur>>
 Vis == VisibleG(tab, cur)
+\* the current value of location b
+Cur(b) == Val(b, vers[b[1]])
 
-RInit == /\ inst = [l \in Libs |-> 0] /\ ticks = [l \in Libs |-> 0] /\ phase = "idle" /\ cur = <<>> /\ tab = ExpTab
+RInit == /\ inst = [l \in Libs |-> 0] /\ ticks = [l \in Libs |-> 0] /\ vers = [l \in Libs |-> 0]
+         /\ phase = "idle" /\ cur = <<>> /\ tab = ExpTab
 
 BeginImport(sets) == /\ phase = "idle" /\ SetsWFG(tab, sets)
-                     /\ phase' = "loading" /\ cur' = sets /\ UNCHANGED <<inst, ticks>>
+                     /\ phase' = "loading" /\ cur' = sets /\ UNCHANGED <<inst, ticks, vers>>
 BodyOK(l) == /\ l \in Needed(cur) /\ inst[l] = 0 /\ \A d \in Deps(l) : inst[d] = 1
 Body(l) == /\ phase = "loading" /\ BodyOK(l)
-           /\ inst' = [inst EXCEPT ![l] = 1] /\ UNCHANGED <<ticks, phase, cur>>
+           /\ inst' = [inst EXCEPT ![l] = 1] /\ UNCHANGED <<ticks, vers, phase, cur>>
 Loaded(sets) == \A l \in Needed(sets) : inst[l] = 1
 EndImport == /\ phase = "loading" /\ Loaded(cur)
-             /\ phase' = "ready" /\ UNCHANGED <<inst, ticks, cur>>
+             /\ phase' = "ready" /\ UNCHANGED <<inst, ticks, vers, cur>>
 
-TickLib(vis, n) == IF n \in DOMAIN vis /\ Kind(vis[n]) = "tick" THEN vis[n][1] ELSE 0
-Expected(vis, tk, n) ==
+\* which counter a reference to n advances: <<"tick", L>>, <<"ver", L>> or <<>>
+Effect(vis, n) ==
+   IF n \notin DOMAIN vis THEN <<>>
+   ELSE LET b == vis[n]
+            k == Kind(b)
+        IN CASE k = "tick"  -> <<"tick", b[1]>>
+             [] k = "bump"  -> <<"ver", b[1]>>
+             [] k = "relay" -> <<"ver", BindInG(tab, b[1], Def(b)[3])[1]>>
+             [] OTHER -> <<>>
+Expected(vis, tk, vs, n) ==
    IF n \notin DOMAIN vis THEN <<None, <<"err">>>>
    ELSE LET b == vis[n]
             k == Kind(b)
-        IN CASE k = "var" -> <<b, <<"err">>>>
+        IN CASE k = "var" -> <<Val(b, vs[b[1]]), <<"err">>>>
              [] k \in {"proc", "mac"} -> <<<<"called">>, b>>
              [] k = "tick" -> <<<<"called">>, <<b[1], b[2], tk[b[1]] + 1>>>>
-After(vis, tk, n) == IF TickLib(vis, n) = 0 THEN tk ELSE [tk EXCEPT ![TickLib(vis, n)] = @ + 1]
+             [] k = "bump" -> <<<<"called">>, <<b[1], b[2], vs[b[1]] + 1>>>>
+             [] k = "rd" -> LET t == BindInG(tab, b[1], Def(b)[3]) IN <<<<"called">>, Val(t, vs[t[1]])>>
+             [] k = "relay" -> LET t == BindInG(tab, b[1], Def(b)[3]) IN <<<<"called">>, <<b[1], b[2], vs[t[1]] + 1>>>>
+Bumped(c, kind, eff) == IF eff # <<>> /\ eff[1] = kind THEN [c EXCEPT ![eff[2]] = @ + 1] ELSE c
 Refer(n, ref, call) == /\ phase = "ready"
-                       /\ <<ref, call>> = Expected(Vis, ticks, n)
-                       /\ ticks' = After(Vis, ticks, n) /\ UNCHANGED <<inst, phase, cur>>
-Discard == /\ phase = "ready" /\ phase' = "idle" /\ cur' = <<>> /\ UNCHANGED <<inst, ticks>>
+                       /\ <<ref, call>> = Expected(Vis, ticks, vers, n)
+                       /\ ticks' = Bumped(ticks, "tick", Effect(Vis, n))
+                       /\ vers' = Bumped(vers, "ver", Effect(Vis, n))
+                       /\ UNCHANGED <<inst, phase, cur>>
+Discard == /\ phase = "ready" /\ phase' = "idle" /\ cur' = <<>> /\ UNCHANGED <<inst, ticks, vers>>
 
 \* a batch of references, one after the other (what the harness logs per program)
-BatchTicks(vis, tk, ns, i) == [l \in Libs |-> tk[l] + Cardinality({j \in 1..i : TickLib(vis, ns[j]) = l})]
-BatchExpected(vis, tk, ns) == [i \in DOMAIN ns |-> Expected(vis, BatchTicks(vis, tk, ns, i - 1), ns[i])]
+BatchCount(vis, c, kind, ns, i) == [l \in Libs |-> c[l] + Cardinality({j \in 1..i : Effect(vis, ns[j]) = <<kind, l>>})]
+BatchExpected(vis, tk, vs, ns) ==
+   [i \in DOMAIN ns |-> Expected(vis, BatchCount(vis, tk, "tick", ns, i - 1), BatchCount(vis, vs, "ver", ns, i - 1), ns[i])]
 
 InstOnce == \A l \in Libs : inst[l] \in {0, 1}
 DepsFirst == \A l \in Libs : inst[l] = 1 => \A d \in Deps(l) : inst[d] = 1
